@@ -47,6 +47,8 @@ def gen_case(seed, i, engine, real_regions):
         for s, e in zip(adv, adv[1:]):
             lines.append("stream %s %s %d" % (hx(s), hx(e), R))
         lines.append("echo endperpart")
+        # the same over the pieces the implementation ITSELF advertises (no prediction): a partition-parallel client
+        lines.append("streamadv %s %s %d" % (hx(a), hx(b), R))
     return core.Case("backend", lines, {"engine": engine, "borders": borders, "adv": adv})
 
 
@@ -93,6 +95,14 @@ def oracle(case):
             # script use the predicted ones — if they differ the per-partition oracle is skipped
             if got != [hx(x) for x in case.meta["adv"]]:
                 case.meta["adv_mismatch"] = True
+        if t[0] == "streamadv" and len(o) == 4 and o[1].startswith("pieces="):
+            R = int(t[3]) or ref.committed
+            want = ref.range(PREFIX + b"/", PREFIX + b"0", R)
+            got = [] if o[3] == "-" else [hist.parse_kv(x) for x in o[3].split(",")]
+            if ref.floor <= R <= ref.committed:
+                if o[2] != "errs=0" or sorted(got) != want:   # every qualifying key exactly once (a multiset comparison)
+                    return ("line %d: streaming the ADVERTISED partitions one by one, in the advertised order, at revision %d gives "
+                            "%s (%s) - the unpartitioned read gives %s" % (i + 1, R, got, o[2], want), "advertised-partitions-stream")
         if t[0] == "stream" and o and o[0] == "stream" and "err" not in o[1:2]:
             R = int(t[3]) or ref.committed
             batches, terms, ends = parse_stream(out)
